@@ -264,3 +264,12 @@ def run(ctx):
     C08.r1_slots(ctx, 'C18.R5')
     r6_pending_accept(ctx)
     r7_write_buffer(ctx)
+
+
+_run_rules = run
+
+
+def run(ctx):
+    _run_rules(ctx)
+    from .. import boundaries
+    boundaries.check(ctx, 'C18.RB', 'C18')
